@@ -47,6 +47,17 @@ def main(argv):
             i += 1
         i += 1
     tier, seed = common.tier_and_seed(cli_tier)
+    if replay:
+        # a replay directory names the failing case by its key; the check is re-run and reports that case only
+        import os
+        what = os.path.join(replay, "what.txt")
+        if not os.path.exists(what):
+            log("no what.txt in %s" % replay)
+            return 2
+        for line in open(what):
+            if line.startswith("key="):
+                os.environ["VERIF_REPLAY_KEY"] = line[4:].rstrip("\n")
+        os.environ["VERIF_KEEP_REPLAYS"] = "1"
     if prop == "selftest":
         from .checks import selftest
         return selftest.run(tier, seed)
